@@ -130,7 +130,19 @@ func (s *Scripted) serve(c net.Conn) {
 			fmt.Fprintf(c, "%x\r\n%s\r\n", len(ev), ev)
 			s.Answers.Add(1)
 			if s.TermNever {
-				<-s.release
+				// while the terminating chunk is withheld, notice the client going away (no request can
+				// arrive before the response is complete: a readable / closed socket means EOF or reset)
+				gone := make(chan struct{})
+				go func() {
+					br.Peek(1)
+					close(gone)
+				}()
+				select {
+				case <-s.release:
+					fmt.Fprintf(c, "0\r\n\r\n")
+				case <-gone:
+				}
+				return
 			} else if s.TermDelay > 0 {
 				select {
 				case <-time.After(s.TermDelay):
